@@ -230,6 +230,9 @@ class SubclassJSONSerializer:
             raise ClassNotDeserializableError(target_cls)
 
         if issubclass(target_cls, SubclassJSONSerializer):
+            if target_cls._from_json.__func__ is SubclassJSONSerializer._from_json.__func__:
+                # the base class itself, or a subclass that does not say how it is created from json
+                raise ClassNotDeserializableError(target_cls)
             return target_cls._from_json(data, **kwargs)
 
         registered_json_deserializer = JSONSerializableTypeRegistry().get_deserializer(
